@@ -49,7 +49,7 @@ CHECKS["C02"] = dict(
 CHECKS["C08"] = dict(
     level="exploration",
     technique="tamper generator over the object store + online monitor on every later lock commit: root must equal the reference RFC 6962 hash of the harness-held committed leaves extended by exactly the round's pool",
-    text="Object storage is tampered (per class: checkpoint, hash tiles incl. right edge, data, names, staging bundle, issuer, roots; per kind: delete, empty, truncate, bit flip raw or inside the gunzipped payload, swap, rollback, validly signed fork/older/larger checkpoint, bad gzip, gzip bomb; singles per class/kind at each size, seeded pairs/triples) before load, between a crash and its recovery, and under a live instance. The outcome (load refused / round error / continues) is recorded, not judged; every lock-store commit that follows is judged online: size = committed truth + pool of that round and root = reference MTH of exactly those leaves; acknowledgements are judged against the truth.",
+    text="Object storage is tampered (per class: checkpoint, hash tiles incl. right edge, data, names, staging bundle, issuer, roots; per kind: delete, empty, truncate, bit flip raw or inside the gunzipped payload, swap, rollback, validly signed fork/older/larger checkpoint, bad gzip, gzip bomb; singles per class/kind at each size, seeded pairs/triples) before load, between a crash and its recovery, and under a live instance. The outcome (load refused / round error / continues) is recorded, not judged; every lock-store commit that follows is judged online: size = committed truth + pool of that round and root = reference MTH of exactly those leaves; acknowledgements are judged against the truth. Objects may also change between two reads of the same key while the server starts (served altered from the k-th fetch on, or at the first fetch only).",
     note="The ground truth (committed leaves) is held by the harness outside the tampered store; the lock store is not tampered (the property trusts it). Trusted: reference Merkle tree and encoders.",
     design_ref="DESIGN.md section 3, C08",
     parts=[P("tamper", "^TestC08Tamper$", shards=(12, 16))],
@@ -71,7 +71,7 @@ CHECKS["C06"] = dict(
 CHECKS["C07"] = dict(
     level="exploration",
     technique="unambiguous submission/acknowledgement ledger checked offline (equal acknowledgements per entry within a cache epoch, no re-admission of pending/acknowledged entries, exactly-once between admissions and leaves via the commit monitor, every acknowledgement names its leaf) with the sequencer held in each phase; race detector on the concurrent workload; real recompute-cache binary checked against an independent key derivation",
-    text="A universe of 10 entries with the confusable pairs the property names is submitted between rounds and while the sequencer is held in each of its phases (pause hook, staging upload, lock CAS, tile upload, checkpoint upload, staging discard, inside the cache write via a held SQLite write lock), with failed rounds, restarts, cache loss, cache rollback, a legacy 128-bit table and its removal while running. Oracle: acknowledgements of one entry are identical within a cache epoch; an entry that is pending, being sequenced or acknowledged is never admitted as a new leaf; lock commits equal truth + admitted pool (exactly-once); every acknowledgement names a stored leaf with its identity and timestamp. A free-running concurrent workload (also under -race) checks the same without epochs. The built recompute-cache binary rebuilds the cache of real LocalBackend logs; rows are compared with an independent key derivation and resubmissions are judged against storage.",
+    text="A universe of 10 entries with the confusable pairs the property names is submitted between rounds and while the sequencer is held in each of its phases (pause hook, staging upload, lock CAS, tile upload, checkpoint upload, staging discard, inside the cache write via a held SQLite write lock), with failed rounds, restarts, cache loss, cache rollback, a legacy 128-bit table and its removal while running. Oracle: acknowledgements of one entry are identical within a cache epoch; an entry that is pending, being sequenced or acknowledged is never admitted as a new leaf; lock commits equal truth + admitted pool (exactly-once); every acknowledgement names a stored leaf with its identity and timestamp. A free-running concurrent workload (also under -race) checks the same without epochs. The built recompute-cache binary rebuilds the cache of real LocalBackend logs; rows are compared with an independent key derivation and resubmissions are judged against storage. A further scenario holds one submission inside the upload of a NEW issuer (gate in the backend call) while the same entry, submitted without chain certificates, is pending, being sequenced or already acknowledged: one leaf, one answer.",
     note="Phases are reached through backend-call gates, the existing pause hook (behind the verif tag) and a SQLite write lock; interleavings inside a phase are left to the Go scheduler and the race detector. Trusted: harness stores, reference decoder.",
     design_ref="DESIGN.md section 3, C07",
     parts=[P("phases", "^TestC07Phases$", shards=(8, 16)), P("stress", "^TestC07Stress$", shards=(2, 4)),
@@ -83,7 +83,7 @@ CHECKS["C07"] = dict(
 CHECKS["C17"] = dict(
     level="exploration",
     technique="virtual-time executions (testing/synctest) of the real RunSequencer with an online reference model of pool occupancy and priority, settle-point outcome accounting per submitter, lock-history monitor after stops",
-    text="Arrival scripts (15-90 submissions: high/low priority, duplicates, cancelled contexts, bursts) over 3-7 sequencing periods run inside synctest bubbles against the real RunSequencer (ticker, read-only switch and request contexts all on virtual time). Each admission decision is compared with a model of the pool at that instant (room => admitted; full: low => rate-limited; high with a pending low => admitted and exactly one pending low-priority entry receives the eviction outcome; high with none => rate-limited), occupancy never exceeds the pool size, rounds add at most pool-size leaves, every submitter has exactly one outcome by the settle point after its pool's tick (bounded progress in virtual time), evicted entries never appear in the tree, and after a stop (fatal lock error, cancellation, read-only date) every later submission fails with the right error kind and the lock history never grows. 400 (thorough 15000) scripts.",
+    text="Arrival scripts (15-90 submissions: high/low priority, duplicates, cancelled contexts, bursts) over 3-7 sequencing periods run inside synctest bubbles against the real RunSequencer (ticker, read-only switch and request contexts all on virtual time). Each admission decision is compared with a model of the pool at that instant (room => admitted; full: low => rate-limited; high with a pending low => admitted and exactly one pending low-priority entry receives the eviction outcome; high with none => rate-limited), occupancy never exceeds the pool size, rounds add at most pool-size leaves, every submitter has exactly one outcome by the settle point after its pool's tick (bounded progress in virtual time), evicted entries never appear in the tree, and after a stop (fatal lock error, cancellation, read-only date) every later submission fails with the right error kind and the lock history never grows. 400 (thorough 15000) scripts. A panic inside a wait function is a violation; submissions made after the sequencer stopped, including resubmissions of acknowledged entries, must fail.",
     note="'Promptly' is restated as: outcome present at the settle point 4 ms of virtual time before the next tick (rounds take no virtual time on the in-memory stores). An evicted victim whose request context was already cancelled is unobservable and accepted as the victim. The HTTP status mapping (503 + Retry-After for rate-limited and evicted submissions, 410 after the read-only date) is checked by a small real-time scenario on the real handler (part http); if a sequencer tick overtakes the scenario on a loaded machine the scenario is skipped, not judged. Trusted: synctest virtual time, harness stores.",
     design_ref="DESIGN.md section 3, C17",
     parts=[P("scripts", "^TestC17Scripts$", shards=(8, 16)), P("http", "^TestC17HTTP$", shards=(2, 6))],
@@ -93,7 +93,7 @@ CHECKS["C17"] = dict(
 CHECKS["C10"] = dict(
     level="exploration",
     technique="oracles wrapped around the exported codec functions (round trip, canonical-prefix re-encoding, no panic under recover) fed by boundary-biased generators and mutation of valid encodings, differentially against an independent TLS-presentation encoder/strict decoder and an independent tile-path renderer/parser; built with -race (checkptr) for one pass",
-    text="~60k (thorough ~3M) generated entries are encoded and compared bytewise with an independent encoder (TileLeaf and RFC 6962 MerkleTreeLeaf), decoded back, and their encodings mutated (bit flips, truncation at every offset, trailing bytes, length +-1, double/unknown/short/long extensions, entry type, timestamp overflow, odd fingerprint length, concatenation) and decoded with the oracle 'error, or the consumed prefix re-encodes to exactly the same bytes and equals the reference decoder's result'; random strings likewise. Leaf-index extension round trip over all bit lengths and refusal at -1, 2^40, 2^63-1 etc.; tile paths forward (vs. reference renderer, parse back) and backward (mutated strings: accept/reject agreement with the reference parser and canonical re-rendering). Every call runs under recover.",
+    text="~60k (thorough ~3M) generated entries are encoded and compared bytewise with an independent encoder (TileLeaf and RFC 6962 MerkleTreeLeaf), decoded back, and their encodings mutated (bit flips, truncation at every offset, trailing bytes, length +-1, double/unknown/short/long extensions, entry type, timestamp overflow, odd fingerprint length, concatenation) and decoded with the oracle 'error, or the consumed prefix re-encodes to exactly the same bytes and equals the reference decoder's result'; random strings likewise. Leaf-index extension round trip over all bit lengths and refusal at -1, 2^40, 2^63-1 etc.; tile paths forward (vs. reference renderer, parse back) and backward (mutated strings: accept/reject agreement with the reference parser and canonical re-rendering). Every call runs under recover. Tile-path mutations include other spellings of the level directory (tile/entries, case variants, numeric aliases) and of the top-level directory.",
     note="Trusted: harness/ref.go encoders, decoder and path code (written from the RFC/c2sp specs). Levels above 63 in tile paths are not demanded to be rejected (the property asks for canonical round trips only). The Go native fuzz engine is not used (generator + mutation suffices and is seed-deterministic).",
     design_ref="DESIGN.md section 3, C10",
     parts=[P("codec", "^TestC10Codec$", shards=(8, 16)), P("codec-checkptr", "^TestC10Codec$", race=True, shards=(4, 8), tiers=("thorough",))],
@@ -113,7 +113,7 @@ CHECKS["C11"] = dict(
 CHECKS["C09"] = dict(
     level="exploration",
     technique="differential monitor on the real HTTP handler: expected accept/reject computed from the chain generator's knobs; accepted submissions checked by independent SCT verification, an independent raw-ASN.1 precertificate defanger and the stored leaf/issuer objects; get-roots compared with the installed set after every reload incl. failing ones",
-    text="~1200 (thorough ~30000) generated chains (root accepted / unknown / accepted after a reload, 0-3 intermediates, chain order faults, NotAfter at both window boundaries +-1 s, EKU variants, final / precertificate / malformed poison, precertificate signing certificate, matching or wrong endpoint, malformed bodies) are posted to the real handler with a running sequencer. Rejections must be 4xx and leave no leaf and no issuer object; acceptances must return an SCT that verifies (certificate-transparency-go tls verifier) over the leaf the harness derives independently from the submitted chain (entry type, DER or defanged TBS built by a raw-ASN.1 defanger, issuer key hash of the true issuer also behind a signing certificate), the stored leaf must equal that derivation incl. pre_certificate and chain fingerprints, every chain certificate must be retrievable as an issuer, the checkpoint published at response time must cover the index, and resubmission returns the byte-identical response. get-roots is compared with the installed set after creation, reloads, an unparsable reload and reloads whose upload fails (applied or not) followed by a retry.",
+    text="~1200 (thorough ~30000) generated chains (root accepted / unknown / accepted after a reload, 0-3 intermediates, chain order faults, NotAfter at both window boundaries +-1 s, EKU variants, final / precertificate / malformed poison, precertificate signing certificate, matching or wrong endpoint, malformed bodies) are posted to the real handler with a running sequencer. Rejections must be 4xx and leave no leaf and no issuer object; acceptances must return an SCT that verifies (certificate-transparency-go tls verifier) over the leaf the harness derives independently from the submitted chain (entry type, DER or defanged TBS built by a raw-ASN.1 defanger, issuer key hash of the true issuer also behind a signing certificate), the stored leaf must equal that derivation incl. pre_certificate and chain fingerprints, every chain certificate must be retrievable as an issuer, the checkpoint published at response time must cover the index, and resubmission returns the byte-identical response. get-roots is compared with the installed set after creation, reloads, an unparsable reload and reloads whose upload fails (applied or not) followed by a retry. A transient failure of a NEW issuer's upload (generic / timeout / cancelled / EOF error kinds, applied or not) may refuse the submission, but the chain must be accepted on resubmission and then every chain certificate must be retrievable.",
     note="Leaf without any EKU: recorded, not judged. Oversized bodies are not generated (the handler answers 500 for a body over 128 KiB; the statement is about chains). Trusted: crypto/x509 certificate creation, harness defanger and encoders, ct-go signature verification.",
     design_ref="DESIGN.md section 3, C09",
     parts=[P("chains", "^TestC09Chains$", shards=(8, 16))],
@@ -123,7 +123,7 @@ CHECKS["C09"] = dict(
 CHECKS["C12"] = dict(
     level="exploration",
     technique="adversarial tile server in front of the unmodified sunlight.Client; every yielded/returned entry, confirmed SCT and returned checkpoint is compared with the harness's ground truth / independent verifiers",
-    text="Logs of sizes {1,2,255,256,257,511,513,700} are rendered by the real sequencer; the harness keeps the leaf list and the verified tree head. An in-process HTTP server serves a copy with one tampering per case (17 kinds over hash and data tiles, incl. edits of non-Merkle-covered fields that must be allowed to pass, and edits with a recomputed level-0 tile) and the client is driven through Entries/AllEntries from start in {0,1,255,256,N-1,N}, Entry(i), CheckInclusion with a valid SCT and 9 altered ones (log id, timestamp, signature, index of another entry, SCT of another entry with this index, extra/absent extension, trailing byte, version) and Checkpoint() over 9 served variants. Oracle: every entry handed to the caller equals the truth in all Merkle-covered fields; a confirmed SCT matches the authentic leaf under independent signature verification; a returned checkpoint verifies independently under the configured key; untampered logs must be fully readable (so refusing everything cannot pass).",
+    text="Logs of sizes {1,2,255,256,257,511,513,700} are rendered by the real sequencer; the harness keeps the leaf list and the verified tree head. An in-process HTTP server serves a copy with one tampering per case (17 kinds over hash and data tiles, incl. edits of non-Merkle-covered fields that must be allowed to pass, and edits with a recomputed level-0 tile) and the client is driven through Entries/AllEntries from start in {0,1,255,256,N-1,N}, Entry(i), CheckInclusion with a valid SCT and 9 altered ones (log id, timestamp, signature, index of another entry, SCT of another entry with this index, extra/absent extension, trailing byte, version) and Checkpoint() over 9 served variants. Oracle: every entry handed to the caller equals the truth in all Merkle-covered fields; a confirmed SCT matches the authentic leaf under independent signature verification; a returned checkpoint verifies independently under the configured key; untampered logs must be fully readable (so refusing everything cannot pass). Tamper kind data-retype serves a leaf re-encoded under the other entry type with the same certificate bytes (forged issuer key hash, empty or non-empty pre_certificate).",
     note="One known finding (F3): a consistent edit of a full data tile and its level-0 hash tile is not detected because of a defect in golang.org/x/mod's verifying tile reader; it is reported as KNOWN-FINDING, all other violation ids still fail the check. Gzip-level corruption costs a client timeout per case and is sampled sparsely. Trusted: harness truth, reference encoders, ct-go verifier.",
     design_ref="DESIGN.md section 3, C12",
     parts=[P("client", "^TestC12Client$", shards=(8, 8), timeout=(1200, 14400)), P("indexmismatch", "^TestC12IndexMismatch$", shards=(1, 4))],
@@ -156,7 +156,7 @@ CHECKS["C13"] = dict(
 CHECKS["C14"] = dict(
     level="exploration",
     technique="model-based runtime monitoring: every add-checkpoint response of the real witness is compared with a sequential reference model; every lock-store commit is checked online against ground-truth chains (one append-only history); concurrent races with injected lock/storage faults and restarts; race detector",
-    text="A real witness (logs installed through PullLogList) is driven over logs with two forks whose leaves the harness holds. Sequential histories vary old/new sizes around the recorded size, proofs (correct, empty, flipped, truncated, extended, proof of the fork), signatures (valid, corrupted, unknown key, other origin) and malformed bodies, with restarts: the status must be one of the statuses of the faults present (200 only when there is none), 409 bodies carry the recorded size, 200 bodies are exactly the two witness cosignatures verifying over the re-encoded (origin, size, root), and the lock store already holds that checkpoint. Concurrently, 8-24 goroutines race main-chain and fork updates from the same recorded size under injected lock Replace and upload failures (applied or not) and restarts: at most one 200 per recorded size and no 200 for a checkpoint that was never recorded. A monitor on every lock commit requires the log's signature, non-decreasing sizes and that all recorded checkpoints lie on one ground-truth chain.",
+    text="A real witness (logs installed through PullLogList) is driven over logs with two forks whose leaves the harness holds. Sequential histories vary old/new sizes around the recorded size, proofs (correct, empty, flipped, truncated, extended, proof of the fork), signatures (valid, corrupted, unknown key, other origin) and malformed bodies, with restarts: the status must be one of the statuses of the faults present (200 only when there is none), 409 bodies carry the recorded size, 200 bodies are exactly the two witness cosignatures verifying over the re-encoded (origin, size, root), and the lock store already holds that checkpoint. Concurrently, 8-24 goroutines race main-chain and fork updates from the same recorded size under injected lock Replace and upload failures (applied or not) and restarts: at most one 200 per recorded size and no 200 for a checkpoint that was never recorded. A monitor on every lock commit requires the log's signature, non-decreasing sizes and that all recorded checkpoints lie on one ground-truth chain. Signatures are also made with the keys of OTHER logs the witness knows (three logs installed), and two overlapping witness processes on one lock store are driven so that the stale one is asked for a fork, an older size, the same or a larger size: the recorded history must stay one chain of non-decreasing size and every 200 must name a recorded checkpoint.",
     note="Proof generation uses x/mod tlog (generator side only); the oracle is the reference RFC 6962 tree over the known leaves. Multi-fault requests are judged by membership in the set of allowed statuses, not by a precedence order.",
     design_ref="DESIGN.md section 3, C14",
     parts=[P("sequential", "^TestC14Sequential$", shards=(4, 16)), P("concurrent", "^TestC14Concurrent$", shards=(4, 16)), P("concurrent-race", "^TestC14Concurrent$", race=True, shards=(2, 8))],
@@ -166,7 +166,7 @@ CHECKS["C14"] = dict(
 CHECKS["C16"] = dict(
     level="exploration",
     technique="exhaustive small-scope request generation against the real sign-subtree handler with an online oracle: every returned line is verified as a subtree cosignature (public verifier) and admitted only for a valid in-range subtree with the reference subtree hash and a key whose valid cosignature is on the presented checkpoint; valid requests must get exactly the expected lines",
-    text="All (start, end) pairs 0 <= start < end <= size+2 for tree sizes 1..33 (thorough 1..80 plus sampled sizes up to 3000), each once with a productive signer set and once with a seeded deviation: signer sets on the presented checkpoint {none, witness ML-DSA, mirror, both, Ed25519 only, foreign witness, forged witness line with the right name and key hash, valid cosignature of another checkpoint pasted in, witness+Ed25519+foreign}, hash {correct, other subtree, flipped}, proof {correct, flipped, truncated, extended}, malformed bodies. Signature lines imply: status 200, valid subtree with end <= size, supplied hash = reference hash of the ground-truth leaves, proof equal to the correct proof, each line verifies with CosignatureVerifier.VerifySubtree under the witness ML-DSA or mirror key and that key's cosignature on the checkpoint verifies independently; no Ed25519 line; no signature text in error responses. Valid requests must be answered with exactly the expected set of lines.",
+    text="All (start, end) pairs 0 <= start < end <= size+2 for tree sizes 1..33 (thorough 1..80 plus sampled sizes up to 3000), each once with a productive signer set and once with a seeded deviation: signer sets on the presented checkpoint {none, witness ML-DSA, mirror, both, Ed25519 only, foreign witness, forged witness line with the right name and key hash, valid cosignature of another checkpoint pasted in, witness+Ed25519+foreign}, hash {correct, other subtree, flipped}, proof {correct, flipped, truncated, extended}, malformed bodies. Signature lines imply: status 200, valid subtree with end <= size, supplied hash = reference hash of the ground-truth leaves, proof equal to the correct proof, each line verifies with CosignatureVerifier.VerifySubtree under the witness ML-DSA or mirror key and that key's cosignature on the checkpoint verifies independently; no Ed25519 line; no signature text in error responses. Valid requests must be answered with exactly the expected set of lines. Half of the deviating requests present combined signer sets: per own key at most one line that is valid / forged / pasted from another checkpoint / the other key's valid cosignature relabelled with this key's name and key hash (after the genuine lines were verified by the server in an earlier request), plus Ed25519, foreign and name-only lines in seeded order.",
     note="Subtree proofs are generated with torchwood.ProveSubtree (generator side); the oracle uses the reference Merkle tree and torchwood's public subtree verifier.",
     design_ref="DESIGN.md section 3, C16",
     parts=[P("subtrees", "^TestC16Subtrees$", shards=(4, 16))],
@@ -176,7 +176,7 @@ CHECKS["C16"] = dict(
 CHECKS["C15"] = dict(
     level="exploration",
     technique="model-based runtime monitoring of the real witness+mirror: a serving-invariant monitor fires on every lock-store write under the mirror-checkpoint key (while it is in flight) and on every 200 answer, auditing public storage byte-exactly against the ground-truth log; bounded-progress check with a well-behaved client; request interleaving through the two existing add-entries hooks (behind the verif tag)",
-    text="Seeded histories of 20-60 operations: add-checkpoint to growing pending sizes; add-entries with start in {next entry, mirror size, next-d, next+d, mid-tile, beyond, 0}, end in {pending, mirror size, an older pending size with / without its ticket, forged, bit-flipped and other-origin tickets, a size never cosigned}, bodies {canonical, first k packages, cut at an arbitrary byte, gzip, wrong entry, entries of a fork, proof flipped / missing / extra hash, 64 hashes, empty}; requests interleaved inside another upload through the before-package / before-commit hooks; single lock or storage faults (applied or not) on chosen call classes; restarts; a well-behaved client loop. On every mirror-checkpoint write and every 200: the note carries the log's signature and a verifying mirror cosignature and no witness line, size N is monotone and <= the pending checkpoint in the lock store, every full hash tile and entry bundle of the size-N tree exists, each right-edge partial tile or the full tile extending it exists, bundle contents equal the log's first N entries and the reference root equals the note's root. Public checkpoint objects must already be recorded. After faults stop / after a restart the client must converge within 5 + N/256 requests.",
+    text="Seeded histories of 20-60 operations: add-checkpoint to growing pending sizes; add-entries with start in {next entry, mirror size, next-d, next+d, mid-tile, beyond, 0}, end in {pending, mirror size, an older pending size with / without its ticket, forged, bit-flipped and other-origin tickets, a size never cosigned}, bodies {canonical, first k packages, cut at an arbitrary byte, gzip, wrong entry, entries of a fork, proof flipped / missing / extra hash, 64 hashes, empty}; requests interleaved inside another upload through the before-package / before-commit hooks; single lock or storage faults (applied or not) on chosen call classes; restarts; a well-behaved client loop. On every mirror-checkpoint write and every 200: the note carries the log's signature and a verifying mirror cosignature and no witness line, size N is monotone and <= the pending checkpoint in the lock store, every full hash tile and entry bundle of the size-N tree exists, each right-edge partial tile or the full tile extending it exists, bundle contents equal the log's first N entries and the reference root equals the note's root. Public checkpoint objects must already be recorded. After faults stop / after a restart the client must converge within 5 + N/256 requests. Overlapping mirror processes: one process is held between the packages and the commit of an upload while a second process on the same stores cosigns and mirrors further; the mirror size must never go back; convergence is demanded after a restart.",
     note="'Uploads can resume' is restated as bounded progress of a client that only follows mirror-info answers. The upload frontier (next entry) is learnt from mirror-info answers, not from internal state. Trusted: harness stores, reference tlog-tiles renderer.",
     design_ref="DESIGN.md section 3, C15",
     parts=[P("mirror", "^TestC15Mirror$", shards=(8, 16)), P("mirror-race", "^TestC15Mirror$", race=True, shards=(4, 8), tiers=("thorough",))],
@@ -186,7 +186,7 @@ CHECKS["C15"] = dict(
 CHECKS["C18"] = dict(
     level="exploration",
     technique="the built cmd/partial-aftersun binary run as a child process on real directories written by the real sequencer / witness on LocalBackend; before/after snapshots (path, content hash, mode, inode flags) judged by an independent path parser and edge computation; independent audit of the remaining files; restart and further sequencing",
-    text="Log directories of sizes around 255-257, 511-513, 767-769 (+ seeded) are produced by the real sequencer on LocalBackend in rounds of varied size (stale partials at data/names/0/1), mirror directories by the real witness on LocalBackend with commits at several mid-tile sizes; hazards are planted (partial without its full tile, empty full tile, partial right of the edge, temp-file leftovers in and next to a partial directory, unrelated files, partial for a tile beyond the tree) a full tile left of the edge is emptied or replaced by a directory while a partial of it survives (a damaged directory: only the removals are judged), and in half of the cases the lock store is ahead of the published checkpoint: either the process died right after the lock commit (no tile of the next tree on disk), or the lock commit and every tile of the next tree were written and only the checkpoint upload did not happen (the next tree crossing a tile boundary, so that the full sibling of the published right-edge partial exists; three such cases at sizes 255, 510, 767 are in every run); mirror directories likewise get uploads whose tiles were written across the next tile boundary while the commit failed. After the tool ran: every removed path must be a partial tile file (or its emptied directory) whose full tile existed as a non-empty regular file and whose index is < floor(size / 256^(level+1)) for the published checkpoint size, computed by the harness from the path; nothing else differs in content, mode or inode flags; the tree at the published checkpoint (and at the lock checkpoint after recovery) is completely readable with reference bytes; LoadLog succeeds and a further round commits; the mirror tree is still completely served and a client can resume; a second run removes nothing forbidden. The tool's exit status is recorded, not judged.",
+    text="Log directories of sizes around 255-257, 511-513, 767-769 (+ seeded) are produced by the real sequencer on LocalBackend in rounds of varied size (stale partials at data/names/0/1), mirror directories by the real witness on LocalBackend with commits at several mid-tile sizes; hazards are planted (partial without its full tile, empty full tile, partial right of the edge, temp-file leftovers in and next to a partial directory, unrelated files, partial for a tile beyond the tree) a full tile left of the edge is emptied or replaced by a directory while a partial of it survives (a damaged directory: only the removals are judged), and in half of the cases the lock store is ahead of the published checkpoint: either the process died right after the lock commit (no tile of the next tree on disk), or the lock commit and every tile of the next tree were written and only the checkpoint upload did not happen (the next tree crossing a tile boundary, so that the full sibling of the published right-edge partial exists; three such cases at sizes 255, 510, 767 are in every run); mirror directories likewise get uploads whose tiles were written across the next tile boundary while the commit failed. After the tool ran: every removed path must be a partial tile file (or its emptied directory) whose full tile existed as a non-empty regular file and whose index is < floor(size / 256^(level+1)) for the published checkpoint size, computed by the harness from the path; nothing else differs in content, mode or inode flags; the tree at the published checkpoint (and at the lock checkpoint after recovery) is completely readable with reference bytes; LoadLog succeeds and a further round commits; the mirror tree is still completely served and a client can resume; a second run removes nothing forbidden. The tool's exit status is recorded, not judged. A further hazard removes a full tile left of the edge altogether while its partial and the same-named tiles of the sibling levels remain.",
     note="Needs root with CAP_LINUX_IMMUTABLE to observe the inode-flag handling (present in this sandbox). The 65536 boundary (first level-1 full tile) is not generated for this check.",
     design_ref="DESIGN.md section 3, C18",
     parts=[P("cleanup", "^TestC18Cleanup$", shards=(6, 16), bins=("partial-aftersun",)), P("mirror", "^TestC18Mirror$", shards=(2, 8), bins=("partial-aftersun",))],
@@ -196,7 +196,7 @@ CHECKS["C18"] = dict(
 CHECKS["C19"] = dict(
     level="exploration",
     technique="the built cmd/skylight binary (plain HTTP, loopback) queried with raw HTTP/1.1 requests; every 200 body is looked up by content hash in a precomputed index of the directory the addressed prefix is configured for (canary files outside), layout URLs are compared with the exact file and prescribed headers; an unmodified sunlight.Client verifies whole logs through the server",
-    text="Real directories (three logs of different sizes on a host-only, a path-prefixed and a deep path prefix; a witness directory with a plain and a mirrored origin incl. mirror tiles) are written by the real sequencer/witness on LocalBackend; canary files sit outside every configured directory. Requests: every existing file through its layout URL under the right and a wrong host, non-layout files (dot-file), layout URLs of non-existing coordinates, ~45 traversal/confusion targets per prefix (.., %2e%2e, %2f, %5c, //, /./, trailing slash, directories, tile/00, .p/0, .p/256, other log's directory, NUL, case, query, 6000-byte paths), origin confusion on the witness routes (.., mirror, encoded separators), absolute-form targets, meta endpoints, 200 anonymous requests for the 429 path. 200 => body is bytewise a regular file inside the directory configured for the addressed prefix, never canary content or a listing, for layout URLs exactly the named file with Content-Type, Content-Encoding, Cache-Control and CORS as prescribed. End to end, an unmodified client reads the checkpoint and all entries of each log through the server and the yielded entries equal the ground truth.",
+    text="Real directories (three logs of different sizes on a host-only, a path-prefixed and a deep path prefix; a witness directory with a plain and a mirrored origin incl. mirror tiles) are written by the real sequencer/witness on LocalBackend; canary files sit outside every configured directory. Requests: every existing file through its layout URL under the right and a wrong host, non-layout files (dot-file), layout URLs of non-existing coordinates, ~45 traversal/confusion targets per prefix (.., %2e%2e, %2f, %5c, //, /./, trailing slash, directories, tile/00, .p/0, .p/256, other log's directory, NUL, case, query, 6000-byte paths), origin confusion on the witness routes (.., mirror, encoded separators), absolute-form targets, meta endpoints, 200 anonymous requests for the 429 path. 200 => body is bytewise a regular file inside the directory configured for the addressed prefix, never canary content or a listing, for layout URLs exactly the named file with Content-Type, Content-Encoding, Cache-Control and CORS as prescribed. End to end, an unmodified client reads the checkpoint and all entries of each log through the server and the yielded entries equal the ground truth. Layout URLs that name no file although a sibling exists (the partial of a full tile, another width, the full tile of a partial) must not be answered 200/206; range requests on layout files must return that range with the same content type, encoding and cache policy.",
     note="TLS/ACME mode is not exercised (plain HTTP mode of the same handlers). Trusted: raw HTTP client of the harness, content index.",
     design_ref="DESIGN.md section 3, C19",
     parts=[P("serve", "^TestC19Serve$", shards=(1, 4), bins=("skylight",))],
